@@ -1004,3 +1004,140 @@ M("n52", "neutral", [], "MetadataBase.dump: parser obtained in one expression",
         self.serialize(document)
         with open_file_obj(f, "w") as out:
             self.build_file(document, out)'''))
+
+# ---- neutral refactors that extract helpers (seen through by inlining calls to functions the rules do not know) ----
+M("n60", "neutral", [], "Rpms.add: filing extracted into a private method",
+  (RP, '''        arches = self.rpms.setdefault(variant, {})
+        srpms = arches.setdefault(arch, {})
+        rpms = srpms.setdefault(srpm_nevra, {})
+        rpms[nevra] = {"sigkey": sigkey, "path": path, "category": category}''', '''        self._file_entry(variant, arch, srpm_nevra, nevra, {"sigkey": sigkey, "path": path, "category": category})
+
+    def _file_entry(self, variant, arch, srpm_nevra, nevra, record):
+        arches = self.rpms.setdefault(variant, {})
+        srpms = arches.setdefault(arch, {})
+        rpms = srpms.setdefault(srpm_nevra, {})
+        rpms[nevra] = record'''))
+M("n61", "neutral", [], "ExtraFiles.add: path checks extracted into a module function",
+  (EF, '''        if not path:
+            raise ValueError("Path can not be empty.")
+
+        if path.startswith("/"):
+            raise ValueError("Relative path expected: %s" % path)
+
+        if not isinstance(checksums, dict):''', '''        _check_relative_path(path)
+
+        if not isinstance(checksums, dict):'''),
+  (EF, '''def _relative_to(path, root):''', '''def _check_relative_path(path):
+    if not path:
+        raise ValueError("Path can not be empty.")
+    if path.startswith("/"):
+        raise ValueError("Relative path expected: %s" % path)
+
+
+def _relative_to(path, root):'''))
+M("n62", "neutral", [], "create_release_id: formatting extracted",
+  (CO, '''    if type == "ga":
+        result = "%s-%s" % (short, version)
+    else:
+        result = "%s-%s-%s" % (short, version, type)
+
+    if bp_short:''', '''    result = _format_release_part(short, version, type)
+
+    if bp_short:'''),
+  (CO, '''def parse_release_id(release_id):''', '''def _format_release_part(short, version, type):
+    if type == "ga":
+        return "%s-%s" % (short, version)
+    return "%s-%s-%s" % (short, version, type)
+
+
+def parse_release_id(release_id):'''))
+M("n63", "neutral", [], "Compose.serialize: field emission extracted into a method",
+  (CI, '''        self.validate()
+        data[self._section] = {}
+        data[self._section]["id"] = self.id
+        data[self._section]["type"] = self.type
+        data[self._section]["date"] = self.date
+        data[self._section]["respin"] = self.respin
+        if self.label:
+            data[self._section]["label"] = self.label
+            data[self._section]["final"] = self.final''', '''        self.validate()
+        data[self._section] = {}
+        self._fill_section(data[self._section])
+
+    def _fill_section(self, section):
+        section["id"] = self.id
+        section["type"] = self.type
+        section["date"] = self.date
+        section["respin"] = self.respin
+        if self.label:
+            section["label"] = self.label
+            section["final"] = self.final'''))
+M("n64", "neutral", [], "Images.add: architecture checks extracted into a module function",
+  (IM, '''        if arch not in productmd.common.RPM_ARCHES:
+            raise ValueError("Arch not found in RPM_ARCHES: %s" % arch)
+        if arch in ["src", "nosrc"]:
+            raise ValueError("Source arch is not allowed. Map source files under binary arches.")
+        if self.header.version_tuple >= (1, 1):''', '''        _check_tree_arch(arch)
+        if self.header.version_tuple >= (1, 1):'''),
+  (IM, '''def identify_image(image):''', '''def _check_tree_arch(arch):
+    if arch not in productmd.common.RPM_ARCHES:
+        raise ValueError("Arch not found in RPM_ARCHES: %s" % arch)
+    if arch in ["src", "nosrc"]:
+        raise ValueError("Source arch is not allowed. Map source files under binary arches.")
+
+
+def identify_image(image):'''))
+M("n65", "neutral", [], "General.serialize: choice of the main variant extracted",
+  (TI, '''        if main_variant is None:
+            variant = variants[0]
+        else:
+            variant = main_variant
+        parser.set(self._section, "variant", variant)''', '''        variant = _pick_main_variant(variants, main_variant)
+        parser.set(self._section, "variant", variant)'''),
+  (TI, '''class General(productmd.common.MetadataBase):''', '''def _pick_main_variant(variants, main_variant):
+    if main_variant is None:
+        return variants[0]
+    return main_variant
+
+
+class General(productmd.common.MetadataBase):'''))
+M("n67", "neutral", [], "get_variants: filters extracted into a predicate",
+  (CI, '''            if types and variant.type not in types:
+                continue
+            if arch and arch not in variant.arches.union(["src"]):
+                continue
+            result.append(variant)''', '''            if _filtered_out(variant, arch, types):
+                continue
+            result.append(variant)'''),
+  (CI, '''class Variants(VariantBase):
+    """
+    This class is a container for compose variants.''', '''def _filtered_out(variant, arch, types):
+    if types and variant.type not in types:
+        return True
+    if arch and arch not in variant.arches.union(["src"]):
+        return True
+    return False
+
+
+class Variants(VariantBase):
+    """
+    This class is a container for compose variants.'''))
+M("n69", "neutral", [], "treeinfo Variant.deserialize_1_0: section lookup extracted",
+  (TI, '''        # the section name depends on the variant type, which is not known yet
+        section = "variant-%s" % uid
+        if not parser.has_section(section):
+            section = "addon-%s" % uid
+        self.id = parser.get(section, "id")''', '''        section = _variant_section(parser, uid)
+        self.id = parser.get(section, "id")'''),
+  (TI, '''class Images(productmd.common.MetadataBase):
+
+    def __init__(self, metadata):''', '''def _variant_section(parser, uid):
+    section = "variant-%s" % uid
+    if not parser.has_section(section):
+        section = "addon-%s" % uid
+    return section
+
+
+class Images(productmd.common.MetadataBase):
+
+    def __init__(self, metadata):'''))
